@@ -5,10 +5,19 @@ proved ONCE by induction on the schema from per-field-kind lemmas.
   msg_fixpoint : whatever a schema accepts re-encodes to bytes that the schema accepts again with
                  the very same re-encoding (canonical fixpoint of ReadMessage ∘ WriteMessage)
   msg_size     : the re-encoding is never longer than the input (so ≤ 65535 whenever the input is)
+  msg_lossless_tail / msg_lossless : for the tail disciplines `opaque` and `tlvAll` the extension
+                 tail (unknown records, trailing extension bytes) is reproduced byte for byte, and
+                 if the schema has no `bool` field the whole re-encoding EQUALS the input body
+  tlvKnownOnly_is_lossy / lossy_tail_types_at_head : the `tlvKnownOnly` tail (HEAD's
+                 `EncodeMessageExtraData`) is NOT lossless; which modelled types have it at HEAD
 
-Both for every schema whose known records re-encode verbatim (`norm = []`); the four modelled
-messages that carry a MuSig2 partial signature (scalar reduced mod n on decode) are covered by the
-replay only.
+Field kinds covered by the theorems: `fixed, bool, varU16, pubkey, sigs, deliveryAddr, alias`
+(`Field.proved`); `features` and `addrs` (non-verbatim re-encodings) are replay-only.
+
+All for schemas whose fields are of proved kinds, whose known records re-encode verbatim
+(`norm = []`) and use no `DBigSize` decoder (`NoBigsize`); the four modelled messages that carry a
+MuSig2 partial signature (scalar reduced mod n on decode) and the three with feature vectors /
+address lists (init, channel_announcement, node_announcement) are covered by the replay only.
 -/
 import LndModel.C10.Wire
 import LndModel.C10.Props
@@ -64,9 +73,51 @@ theorem decPrefixed_fix (mult maxLen : Nat) (b e r : Bytes)
         · simp only [List.length_take, List.length_drop]
           omega
 
-theorem decField_fix (f : Field) (b e r : Bytes) (h : decField f b = some (e, r)) :
+theorem decPrefixed_verbatim (mult maxLen : Nat) (b e r : Bytes)
+    (h : decPrefixed mult maxLen b = some (e, r)) : b = e ++ r := by
+  unfold decPrefixed at h
+  split at h
+  · cases h
+  · split at h
+    · cases h
+    · split at h
+      · cases h
+      · cases h
+        rw [List.drop_drop]
+        exact (List.take_append_drop _ b).symm
+
+/-- field kinds for which the per-kind lemmas are proved. -/
+def Field.proved : Field → Bool
+  | .features => false
+  | .addrs => false
+  | _ => true
+
+/-- field kinds whose re-encoding is the consumed bytes themselves. -/
+def Field.verbatim : Field → Bool
+  | .features => false
+  | .addrs => false
+  | .bool => false
+  | _ => true
+
+theorem decField_fix (f : Field) (hp : f.proved = true) (b e r : Bytes)
+    (h : decField f b = some (e, r)) :
     (∀ r', decField f (e ++ r') = some (e, r')) ∧ e.length + r.length = b.length := by
   cases f with
+  | features => simp [Field.proved] at hp
+  | addrs => simp [Field.proved] at hp
+  | alias =>
+    simp only [decField] at h
+    split at h
+    · cases h
+    · rename_i hn
+      split at h
+      · rename_i hpk
+        cases h
+        refine ⟨fun r' => ?_, by simp only [List.length_take, List.length_drop]; omega⟩
+        obtain ⟨f1, f2, f3⟩ := take_prefix_fix 32 b r' hn
+        simp only [decField]
+        rw [if_neg f1, f2, f3, if_pos hpk]
+      · cases h
   | fixed n =>
     simp only [decField] at h
     split at h
@@ -106,7 +157,57 @@ theorem decField_fix (f : Field) (b e r : Bytes) (h : decField f b = some (e, r)
         rw [if_neg f1, f2, f3, if_pos hpk]
       · cases h
 
-theorem decFields_fix (fs : List Field) :
+theorem decField_verbatim (f : Field) (hv : f.verbatim = true) (b e r : Bytes)
+    (h : decField f b = some (e, r)) : b = e ++ r := by
+  cases f with
+  | features => simp [Field.verbatim] at hv
+  | addrs => simp [Field.verbatim] at hv
+  | bool => simp [Field.verbatim] at hv
+  | fixed n =>
+    simp only [decField] at h
+    split at h
+    · cases h
+    · cases h; exact (List.take_append_drop n b).symm
+  | alias =>
+    simp only [decField] at h
+    split at h
+    · cases h
+    · split at h
+      · cases h; exact (List.take_append_drop 32 b).symm
+      · cases h
+  | pubkey =>
+    simp only [decField] at h
+    split at h
+    · cases h
+    · split at h
+      · cases h; exact (List.take_append_drop 33 b).symm
+      · cases h
+  | varU16 => exact decPrefixed_verbatim _ _ _ _ _ h
+  | sigs => exact decPrefixed_verbatim _ _ _ _ _ h
+  | deliveryAddr => exact decPrefixed_verbatim _ _ _ _ _ h
+
+theorem decField_suffix (f : Field) (hp : f.proved = true) (b e r : Bytes)
+    (h : decField f b = some (e, r)) : r = b.drop e.length := by
+  by_cases hv : f.verbatim = true
+  · have := decField_verbatim f hv b e r h
+    rw [this]
+    exact (List.drop_left' rfl).symm
+  · cases f with
+    | bool =>
+      simp only [decField] at h
+      split at h
+      · cases h
+      · cases h; rfl
+    | features => simp [Field.proved] at hp
+    | addrs => simp [Field.proved] at hp
+    | fixed n => simp [Field.verbatim] at hv
+    | varU16 => simp [Field.verbatim] at hv
+    | pubkey => simp [Field.verbatim] at hv
+    | sigs => simp [Field.verbatim] at hv
+    | deliveryAddr => simp [Field.verbatim] at hv
+    | alias => simp [Field.verbatim] at hv
+
+theorem decFields_fix (fs : List Field) (hp : ∀ f ∈ fs, f.proved = true) :
     ∀ (b e r : Bytes), decFields fs b = some (e, r) →
       (∀ r', decFields fs (e ++ r') = some (e, r')) ∧ e.length + r.length = b.length := by
   induction fs with
@@ -125,8 +226,8 @@ theorem decFields_fix (fs : List Field) :
       · cases h
       · rename_i es r2 h2
         cases h
-        obtain ⟨g1, g2⟩ := decField_fix f b e1 r1 h1
-        obtain ⟨g3, g4⟩ := ih r1 es r h2
+        obtain ⟨g1, g2⟩ := decField_fix f (hp f (by simp)) b e1 r1 h1
+        obtain ⟨g3, g4⟩ := ih (fun g hg => hp g (by simp [hg])) r1 es r h2
         refine ⟨fun r' => ?_, by simp only [List.length_append]; omega⟩
         simp only [decFields, List.append_assoc, g1, g3]
 
@@ -176,13 +277,14 @@ theorem map_normRec_nil (rs : List Rec) : rs.map (normRec []) = rs := by
 /-- `msg_fixpoint`: for every schema (any field list, any tail discipline, any set of known
     records, verbatim re-encoding of record values) and every body: if the message is accepted
     with re-encoding `e`, then `e` is accepted and re-encodes to `e` itself. -/
-theorem msg_fixpoint (sc : Schema) (hnorm : sc.norm = []) (body e : Bytes)
+theorem msg_fixpoint (sc : Schema) (hp : ∀ f ∈ sc.fields, f.proved = true)
+    (hnb : NoBigsize sc.known) (hnorm : sc.norm = []) (body e : Bytes)
     (h : runSchema sc body = .accept e) : runSchema sc e = .accept e := by
   unfold runSchema at h ⊢
   split at h
   · cases h
   · rename_i enc rest hdec
-    obtain ⟨hfix, _⟩ := decFields_fix sc.fields body enc rest hdec
+    obtain ⟨hfix, _⟩ := decFields_fix sc.fields hp body enc rest hdec
     split at h
     · -- ignore
       cases h
@@ -197,28 +299,29 @@ theorem msg_fixpoint (sc : Schema) (hnorm : sc.norm = []) (body e : Bytes)
       · cases h
       · rename_i rs hrs
         cases h
-        rw [hnorm, map_normRec_nil, stream_encode_decode sc.known true rest rs hrs]
-        simp only [hfix, hrs, map_normRec_nil, stream_encode_decode sc.known true rest rs hrs]
+        rw [hnorm, map_normRec_nil, stream_encode_decode sc.known true hnb rest rs hrs]
+        simp only [hfix, hrs, map_normRec_nil, stream_encode_decode sc.known true hnb rest rs hrs]
     · -- tlvKnownOnly
       split at h
       · cases h
       · rename_i rs hrs
         cases h
         rw [hnorm, map_normRec_nil]
-        have hcan := ((stream_accept_iff_canonical sc.known true rest rs).mp hrs).1
+        have hcan := ((stream_accept_iff_canonical sc.known true hnb rest rs).mp hrs).1
         have hk := canonical_filter sc.known true (fun r => (lookupKind sc.known r.1).isSome) rs 0 hcan
-        simp only [hfix, stream_decode_encode sc.known true _ hk, List.filter_filter, Bool.and_self,
+        simp only [hfix, stream_decode_encode sc.known true hnb _ hk, List.filter_filter, Bool.and_self,
           map_normRec_nil]
 
 /-- `msg_size`: the re-encoding is never longer than the body that was decoded; in particular a
     message of at most 65535 bytes re-encodes to at most 65535 bytes. -/
-theorem msg_size (sc : Schema) (hnorm : sc.norm = []) (body e : Bytes)
+theorem msg_size (sc : Schema) (hp : ∀ f ∈ sc.fields, f.proved = true)
+    (hnb : NoBigsize sc.known) (hnorm : sc.norm = []) (body e : Bytes)
     (h : runSchema sc body = .accept e) : e.length ≤ body.length := by
   unfold runSchema at h
   split at h
   · cases h
   · rename_i enc rest hdec
-    obtain ⟨_, hlen⟩ := decFields_fix sc.fields body enc rest hdec
+    obtain ⟨_, hlen⟩ := decFields_fix sc.fields hp body enc rest hdec
     split at h
     · cases h; omega
     · cases h; simp only [List.length_append]; omega
@@ -226,7 +329,7 @@ theorem msg_size (sc : Schema) (hnorm : sc.norm = []) (body e : Bytes)
       · cases h
       · rename_i rs hrs
         cases h
-        rw [hnorm, map_normRec_nil, stream_encode_decode sc.known true rest rs hrs]
+        rw [hnorm, map_normRec_nil, stream_encode_decode sc.known true hnb rest rs hrs]
         simp only [List.length_append]; omega
     · split at h
       · cases h
@@ -234,8 +337,143 @@ theorem msg_size (sc : Schema) (hnorm : sc.norm = []) (body e : Bytes)
         cases h
         rw [hnorm, map_normRec_nil]
         have := encodeStream_filter_length (fun r => (lookupKind sc.known r.1).isSome) rs
-        rw [stream_encode_decode sc.known true rest rs hrs] at this
+        rw [stream_encode_decode sc.known true hnb rest rs hrs] at this
         simp only [List.length_append]; omega
+
+/-! ### losslessness of the `opaque` and `tlvAll` tails -/
+
+theorem decFields_verbatim (fs : List Field) (hv : ∀ f ∈ fs, f.verbatim = true) :
+    ∀ (b e r : Bytes), decFields fs b = some (e, r) → b = e ++ r := by
+  induction fs with
+  | nil =>
+    intro b e r h
+    simp only [decFields] at h
+    cases h
+    rfl
+  | cons f fs ih =>
+    intro b e r h
+    simp only [decFields] at h
+    split at h
+    · cases h
+    · rename_i e1 r1 h1
+      split at h
+      · cases h
+      · rename_i es r2 h2
+        cases h
+        rw [decField_verbatim f (hv f (by simp)) b e1 r1 h1,
+          ih (fun g hg => hv g (by simp [hg])) r1 es r h2, List.append_assoc]
+
+/-- the rest returned by the field decoder is always a suffix of the body (any proved kind). -/
+theorem decFields_suffix (fs : List Field) (hp : ∀ f ∈ fs, f.proved = true) (b e r : Bytes)
+    (h : decFields fs b = some (e, r)) : r = b.drop e.length := by
+  induction fs generalizing b e r with
+  | nil =>
+    simp only [decFields] at h
+    cases h
+    rfl
+  | cons f fs ih =>
+    simp only [decFields] at h
+    split at h
+    · cases h
+    · rename_i e1 r1 h1
+      split at h
+      · cases h
+      · rename_i es r2 h2
+        cases h
+        have hs1 : r1 = b.drop e1.length := decField_suffix f (hp f (by simp)) b e1 r1 h1
+        have hs2 := ih (fun g hg => hp g (by simp [hg])) r1 es r h2
+        rw [hs2, hs1, List.drop_drop, List.length_append]
+
+/-- `msg_lossless_tail`: for the tail disciplines `opaque` (ExtraOpaqueData kept verbatim) and
+    `tlvAll` (ParseAndExtractCustomRecords / MergeAndEncode) every byte of the extension tail —
+    unknown records, custom records, trailing extension data — is reproduced: the re-encoding is
+    (re-encoded fixed fields) ++ (the input's tail, byte for byte), the fixed part has the same
+    length as in the input. -/
+theorem msg_lossless_tail (sc : Schema) (hp : ∀ f ∈ sc.fields, f.proved = true)
+    (hnb : NoBigsize sc.known) (hnorm : sc.norm = [])
+    (htail : sc.tail = .opaque ∨ sc.tail = .tlvAll) (body e : Bytes)
+    (h : runSchema sc body = .accept e) :
+    ∃ enc, decFields sc.fields body = some (enc, body.drop enc.length) ∧
+      e = enc ++ body.drop enc.length ∧ enc.length ≤ body.length := by
+  unfold runSchema at h
+  split at h
+  · cases h
+  · rename_i enc rest hdec
+    have hsuf := decFields_suffix sc.fields hp body enc rest hdec
+    have hlen := (decFields_fix sc.fields hp body enc rest hdec).2
+    refine ⟨enc, by rw [← hsuf]; exact hdec, ?_, by omega⟩
+    rcases htail with ht | ht
+    · rw [ht] at h
+      simp only at h
+      cases h
+      rw [hsuf]
+    · rw [ht] at h
+      simp only at h
+      split at h
+      · cases h
+      · rename_i rs hrs
+        cases h
+        rw [hnorm, map_normRec_nil, stream_encode_decode sc.known true hnb rest rs hrs, hsuf]
+
+/-- `msg_lossless`: if moreover no field is a `bool` (the only proved kind with a non-verbatim
+    re-encoding: a byte ≠ 0,1 is written back as 0), decode-then-encode is the IDENTITY on accepted
+    bodies: nothing is lost, nothing is normalised. -/
+theorem msg_lossless (sc : Schema) (hv : ∀ f ∈ sc.fields, f.verbatim = true)
+    (hnb : NoBigsize sc.known) (hnorm : sc.norm = [])
+    (htail : sc.tail = .opaque ∨ sc.tail = .tlvAll) (body e : Bytes)
+    (h : runSchema sc body = .accept e) : e = body := by
+  unfold runSchema at h
+  split at h
+  · cases h
+  · rename_i enc rest hdec
+    have hb := decFields_verbatim sc.fields hv body enc rest hdec
+    rcases htail with ht | ht
+    · rw [ht] at h
+      simp only at h
+      cases h
+      exact hb.symm
+    · rw [ht] at h
+      simp only at h
+      split at h
+      · cases h
+      · rename_i rs hrs
+        cases h
+        rw [hnorm, map_normRec_nil, stream_encode_decode sc.known true hnb rest rs hrs]
+        exact hb.symm
+
+/-- `tlvKnownOnly_is_lossy`: the `tlvKnownOnly` tail (what `EncodeMessageExtraData` does at
+    /repo HEAD, finding F-lnwire-unknown-tlv-dropped) is NOT lossless: closing_signed (type 39)
+    with an all-zero body and the unknown odd record `09 02 aa bb` is accepted, and the
+    re-encoding has lost the record although it is a canonical fixpoint (`msg_fixpoint`). -/
+theorem tlvKnownOnly_is_lossy :
+    ∃ sc body e, schemaOf true 39 = some sc ∧ runSchema sc body = .accept e ∧
+      body = List.replicate 104 0 ++ [0x09, 0x02, 0xaa, 0xbb] ∧ e = List.replicate 104 0 := by
+  refine ⟨_, _, _, rfl, ?_, rfl, rfl⟩
+  simp [runSchema, decFields, decField, decodeStream, decodeLoop, readVarInt, isBigsizeFor,
+    lookupKind, lenOkFor, valOkFor, maxRecordSize, two64, encodeStream, kPartialSig]
+
+/-- `lossy_tail_types_at_head`: which modelled message types have the lossy tail at HEAD
+    (`dropUnknownAtHead = true`): gossip_timestamp_range 265, closing_signed 39, funding_signed 35,
+    funding_created 34, channel_ready 36; every other modelled type has `ignore`, `opaque` or
+    `tlvAll`.  (Not modelled but lossy in the same way at HEAD, see the known finding:
+    32 33 40 41 133 136 258 263 264.) -/
+theorem lossy_tail_types_at_head :
+    (∀ t ∈ [265, 39, 35, 34, 36], (schemaOf true t).map (·.tail) = some Tail.tlvKnownOnly) ∧
+    (∀ t ∈ [1, 17, 18, 19, 2, 134, 131, 135, 262, 259, 130, 128, 38, 132, 16, 256, 257],
+      (schemaOf true t).map (·.tail) ≠ some Tail.tlvKnownOnly) ∧
+    (∀ t ∈ [265, 39, 35, 34, 36], (schemaOf false t).map (·.tail) = some Tail.tlvAll) := by
+  decide
+
+/-- the modelled schemas to which `msg_lossless` applies as it stands (verbatim fields, `opaque`
+    or `tlvAll` tail, no value normalisation, no BigSize record): update_fee 134,
+    update_fail_htlc 131, update_fail_malformed_htlc 135, reply_short_chan_ids_end 262,
+    announcement_signatures 259, update_fulfill_htlc 130, update_add_htlc 128, shutdown 38. -/
+theorem lossless_schemas :
+    ∀ t ∈ [134, 131, 135, 262, 259, 130, 128, 38],
+      (schemaOf true t).map (fun sc => sc.fields.all Field.verbatim && sc.norm.length == 0 &&
+        (sc.tail == .opaque || sc.tail == .tlvAll) &&
+        sc.known.all (fun p => !p.2.isBigsize)) = some true := by
+  decide
 
 /-- the 15 modelled message types whose schema has no value normalisation: `msg_fixpoint` and
     `msg_size` apply to them as they stand (both behaviours of `EncodeMessageExtraData`). -/
